@@ -541,6 +541,16 @@ fn hostile_link_files() -> Vec<(String, String)> {
         d["signatures"][0]["keyid"] = json!(kid);
         v.push((format!("keyid {kid:?}"), d.to_string()));
     }
+    // a link labelled with a key id that a step may list although no key is defined for it
+    {
+        let mut d = gv.clone();
+        d["signatures"][0]["keyid"] = json!("a".repeat(64));
+        v.push(("keyid aaaa... (no such key), signature kept".into(), d.to_string()));
+        d["signatures"][0]["sig"] = json!("00");
+        v.push(("keyid aaaa... (no such key), signature 00".into(), d.to_string()));
+        let other = world::sign_link(world::link("s", world::arts(&[("m", 1)]), world::arts(&[("p", 2)])), &[keys::get("ed3")]);
+        v.push(("validly signed by a key outside the key table".into(), world::block_text(&other)));
+    }
     // artifact paths
     for p in hostile_paths() {
         let mut d = gv.clone();
@@ -581,6 +591,13 @@ fn hostile_layouts() -> Vec<(String, LayoutMetadata)> {
             v.push((format!("step {name:?} threshold {thr}"), world::layout(vec![st], vec![], &[a], world::far_future())));
         }
     }
+    // a step that lists key ids the key table does not define (a dangling id, and the id
+    // of a key that is simply not in the table); the hostile link files are labelled with them
+    {
+        let mut st = world::step("s", 1, &[keys::get("ed3")]);
+        st.pub_keys.push(KeyId::from_str(&"a".repeat(64)).unwrap());
+        v.push(("step with key ids missing from the key table".into(), world::layout(vec![st], vec![], &[a], world::far_future())));
+    }
     // duplicate step names, step and inspection with the same name, inspection with empty command
     v.push(("duplicate step names".into(), world::layout(vec![world::step("s", 1, &[a]), world::step("s", 1, &[a])], vec![], &[a], world::far_future())));
     v.push(("inspection without command".into(), world::layout(vec![world::step("s", 1, &[a])], vec![Inspection::new("s"), Inspection::new("")], &[a], world::far_future())));
@@ -617,7 +634,7 @@ fn sweep_adversarial_verify(cx: &mut Ctx, dir: &Path) {
                     // the hostile file under the authorised key's prefix and under arbitrary prefixes
                     // eight *characters* after the step name match the glob `????????`; several of
                     // these names have a multi-byte character across byte 8 of that part
-                    for prefix in [a.prefix(), "aaaaaaaa".to_string(), "éééé".to_string(), "aaaaaaaé".to_string(), "éééééééé".to_string(), "€€€€€€€€".to_string(), "aaaaaa\u{10000}a".to_string(), "aaa".to_string(), "aaaaaaaaa".to_string()] {
+                    for prefix in [a.prefix(), keys::get("ed3").prefix(), "aaaaaaaa".to_string(), "éééé".to_string(), "aaaaaaaé".to_string(), "éééééééé".to_string(), "€€€€€€€€".to_string(), "aaaaaa\u{10000}a".to_string(), "aaa".to_string(), "aaaaaaaaa".to_string()] {
                         let safe = sn.replace('/', "_").replace('\0', "_");
                         let _ = std::fs::write(linkdir.join(format!("{safe}.{prefix}.link")), ct);
                         let _ = std::fs::write(linkdir.join(format!("s.{prefix}.link")), ct);
